@@ -266,6 +266,11 @@ pub fn single_fault_scenarios(op: &str, cfg: &CfgSpec) -> Vec<(Scenario, bool)> 
             out.push((mk(vec![PlanEntry { kind: *kind, occ: Some(0), from_start, directive: Directive { outcome: Outcome::Abort(0x83), ..Default::default() } }]), true));
         }
     }
+    // the terminal drops the idle connection after an exchange that completed (position 99 = behind the last packet): the
+    // next request meets a dead connection
+    for (kind, occ, _) in &script {
+        out.push((mk(vec![PlanEntry { kind: *kind, occ: Some(*occ), from_start, directive: Directive { fault: Some((FaultKind::Close, 99)), ..Default::default() } }]), true));
+    }
     if !from_start {
         // handshake positions of a forced reconnect
         if let Some((k0, o0, _)) = script.first().cloned() {
@@ -304,6 +309,20 @@ pub fn run(tier: Tier) -> i32 {
         }
     });
     stats.merge(s);
+    // 1a. the configured serial number differs from the reported one (17FD1E3C) in other ways than a wholly different
+    //     value: truncated, a mere prefix, empty (the default configuration), longer, one character off
+    let mut s1a = Stats::new();
+    for (k, serial) in ["17fd1e3", "17FD1E3", "17fd", "1", "", "17fd1e3c0", "17fd1e3cc", "7fd1e3c", "17fd1e3d", "27fd1e3c", "17fd1e3c "].iter().enumerate() {
+        for op in ["new", "read_card", "begin", "configure"] {
+            let cfg = CfgSpec { serial: serial.to_string(), ..cfg0.clone() };
+            let mut sc = with_followup(base_scenario(op, cfg));
+            sc.sim.intermediates = k % 2;
+            s1a.case(true, fnv(&serde_json::to_vec(&sc).unwrap()));
+            s1a.class("configured-serial-differs(prefix/empty/longer/one-off)");
+            ctx.record(check_scenario(&sc), &mut s1a);
+        }
+    }
+    stats.merge(s1a);
     // 1b. configurations: the registration on every (re)connection carries the configured password and currency
     let s = ctx.shards("configs", 8, |_i, seed, st| {
         let strat = (
@@ -349,7 +368,7 @@ pub fn run(tier: Tier) -> i32 {
     stats.exhaustive_parts = vec!["single faults {close, garbage, NACK, silence} at every packet position of every exchange of each of the 6 operations (handshake included, also the handshake of a forced reconnect), wrong serial at the identity check; each followed by a further call".into()];
     ctx.finish(
         stats,
-        "the real Feig client against the simulated terminal on paused time; positions from a fault-free dry run; one fault per position and kind (exhaustive), then proptest plans of 2..6 faults (incl. several wrong-serial connections in a row), each followed by one more fault-free call. Oracle = invariants over the client-side per-connection log: I1 every connection starts with Registration(password, config byte, currency) then the system-info query before any other command; I2 nothing but one ack is written after a wrong serial and the connection is closed; I3 after a delivered fault (garbage/NACK read, EOF, time-out after silence) nothing is written on that connection and it is dropped before the next one opens; I4 a connection whose exchanges all completed is kept and reused without a new Registration. non-trivial = fault at a handshake position or at a reply position >= 1, every multi-fault plan; distinct by scenario",
+        "the real Feig client against the simulated terminal on paused time; positions from a fault-free dry run; one fault per position and kind (exhaustive), configured serial numbers that are a prefix / empty / longer / one character off the reported one, then proptest plans of 2..6 faults (incl. several wrong-serial connections in a row), each followed by one more fault-free call. Oracle = invariants over the client-side per-connection log: I1 every connection starts with Registration(password, config byte, currency) then the system-info query before any other command; I2 nothing but one ack is written after a wrong serial and the connection is closed; I3 after a delivered fault (garbage/NACK read, EOF, time-out after silence) nothing is written on that connection and it is dropped before the next one opens; I4 a connection whose exchanges all completed is kept and reused without a new Registration. non-trivial = fault at a handshake position or at a reply position >= 1, every multi-fault plan; distinct by scenario",
         &["the client-side log is written by the stream object handed to the client (virtual time stamps), so orderings do not depend on task scheduling", "fault kinds of Appendix C; RSTs / short writes are not modelled"],
         false,
     )
